@@ -6,7 +6,7 @@ import symtable
 from ..cfg import cfg_of
 from ..core import (
     ancestors, assigns_to, body_walk, call_attr, call_name, calls_in, const_value, dotted, enclosing_func, enclosing_stmt,
-    handler_catches, is_const, kwarg, nodes_of_type, parent, stores_to, unparse, walk_local, names_in,
+    handler_catches, is_const, kwarg, nodes_of_type, parent, stores_to, unparse, walk_local, names_in, cond_facts,
 )
 
 HS = "joblib/hashing.py"
@@ -92,7 +92,9 @@ def unordered(ctx):
         ctx.need(fn, "dispatch[%s] refers to unknown function %s" % (ty, fname))
         saves = [c for c in calls_in(fn[0]) if call_name(c) in ("Pickler.save", "self.save")]
         ok = bool(saves) and isinstance(saves[0].args[-1], ast.Call)
-        ctx.need(ok, "normaliser for %s does not pickle a proxy object" % ty)
+        if not ok:
+            ctx.bad(fn[0], "the normaliser registered for %s does not pickle a sorted proxy of the container: its elements never reach the digest in a canonical order" % ty, key=HS + "::Hasher::order normaliser for " + ty)
+            continue
         proxy = call_name(saves[0].args[-1])
         proxies[ty] = proxy
         pc = mod.classes.get(proxy)
@@ -196,7 +198,8 @@ def memo(ctx):
 def proto(ctx):
     f = ctx.repo.func(HS, "Hasher.__init__")
     cs = [c for c in calls_in(f) if call_name(c) == "Pickler.__init__"]
-    ctx.need(cs, "Hasher.__init__ no longer calls Pickler.__init__")
+    if not cs:
+        ctx.bad(f, "Hasher.__init__ does not initialise the pickler on its own stream with a pinned protocol", key=HS + "::Hasher.__init__::Pickler.__init__")
     for c in cs:
         p = kwarg(c, "protocol", 2)
         v = p
@@ -215,11 +218,19 @@ def proto(ctx):
     ctx.check(bool(dump) and bool(upd) and g.every_path_to(g.nodes_of_all(upd), g.nodes_of_all(dump)), upd[0] if upd else h, "the whole pickled stream is fed to the digest after dumping")
     gv = [a for a in nodes_of_type(h, ast.Assign) if isinstance(a.value, ast.Call) and call_name(a.value) == "self.stream.getvalue"]
     ctx.check(bool(gv) and upd and dotted(upd[0].args[0]) == gv[0].targets[0].id, gv[0] if gv else h, "digest input is stream.getvalue() (no truncation)")
-    ctx.check(any(isinstance(r.value, ast.Call) and call_name(r.value) == "self._hash.hexdigest" for r in nodes_of_type(h, ast.Return)), h, "the hex digest is returned")
+    rd = [r for r in nodes_of_type(h, ast.Return) if isinstance(r.value, ast.Call) and call_name(r.value) == "self._hash.hexdigest"]
+    ctx.check(bool(rd), h, "the hex digest is returned", "Hasher.hash does not return the hex digest")
+    for r in rd:
+        facts = cond_facts(g.conditions_at(g.nodes_of(r)))
+        ctx.check(all(f == (h.args.args[2].arg, True) for f in facts), r, "whenever a digest is requested (%s)" % (facts or "unconditionally"), "the digest is returned under %s" % facts)
+    for hd in [x for t_ in nodes_of_type(h, ast.Try) for x in t_.handlers]:
+        from ..core import handler_reraises
+        ctx.check(handler_reraises(hd), hd, "a pickling error aborts the digest (no digest of a partial stream)", "Hasher.hash swallows %s: the digest of a partially pickled value is returned" % (unparse(hd.type) if hd.type else "every exception"))
     top = ctx.repo.func(HS, "hash")
     t = [n for n in nodes_of_type(top, ast.If) if "hash_name not in" in unparse(n.test) and any(isinstance(s, ast.Raise) for s in n.body)]
     vn = [a for a in nodes_of_type(top, ast.Assign) if "valid_hash_names" in stores_to(a)]
-    ctx.check(bool(t) and vn and {const_value(e) for e in vn[0].value.elts} == {"md5", "sha1"}, t[0] if t else top, "hash() accepts exactly md5 and sha1")
+    ctx.check(bool(t) and vn and {const_value(e) for e in vn[0].value.elts} == {"md5", "sha1"} and unparse(t[0].test) == "hash_name not in valid_hash_names", t[0] if t else top, "hash() accepts exactly md5 and sha1",
+              "hash() does not reject exactly the names outside (md5, sha1)")
     hc = [c for c in calls_in(top) if call_name(c) in ("Hasher", "NumpyHasher")]
     ctx.check(len(hc) == 2 and all(dotted(kwarg(c, "hash_name")) == "hash_name" for c in hc), hc[0] if hc else top, "the requested hash name reaches the hasher")
     ctx.check(any(isinstance(r.value, ast.Call) and call_name(r.value) == "hasher.hash" and dotted(r.value.args[0]) == top.args.args[0].arg for r in nodes_of_type(top, ast.Return)), top, "hash(obj) digests obj itself")
@@ -259,6 +270,88 @@ def no_collapse(ctx):
         if isinstance(m, ast.FunctionDef):
             ctx.check(m.name not in ("reducer_override", "persistent_id", "save_reduce", "save_long", "save_float", "save_bool", "save_str", "save_bytes", "save_tuple", "save_list"), m,
                       "method %s is not a scalar/sequence saver override" % m.name, "Hasher overrides %s: values of a builtin type may be mapped to one representation" % m.name)
+
+
+def feed_total(ctx):
+    """Every value handed to a hook of the Hasher hierarchy reaches the digest: each overriding method passes, on
+    every normal path, through a call of the parent implementation (or a direct update of the digest).  A path that
+    returns without feeding anything makes all values routed there share one digest."""
+    mod = ctx.repo.mod(HS)
+    n = 0
+    for cname, parents in (("Hasher", ("Pickler",)), ("NumpyHasher", ("Hasher", "Pickler"))):
+        cls = mod.classes.get(cname)
+        ctx.need(cls is not None, "class %s not found" % cname)
+        for m in cls.body:
+            if not isinstance(m, ast.FunctionDef) or m.name in ("__init__", "hash"):
+                continue
+            g = cfg_of(m)
+            feeds = [c for c in calls_in(m) if (call_name(c) or "").split(".")[0] in parents and len(c.args) >= 1 and dotted(c.args[0]) == "self"] + \
+                    [c for c in calls_in(m) if call_name(c) == "self._hash.update"]
+            exempt = set()
+            if m.name == "memoize":
+                # the one intended non-feeding path: str/bytes are not memoised (C08.MEMO decides its test)
+                for r in nodes_of_type(m, ast.Return):
+                    if any(isinstance(t, ast.Call) and call_name(t) == "isinstance" and pol for (_, t, pol) in g.conditions_at(g.nodes_of(r))):
+                        exempt.update(g.nodes_of(r))
+            n += 1
+            ok = bool(feeds) and g.every_path_from([g.entry], set(g.nodes_of_all(feeds)) | exempt, None, skip_exc=False)
+            ctx.check(ok, m, "%s.%s: every normal path feeds the parent pickler / the digest" % (cname, m.name),
+                      "%s.%s can return without handing the value to the parent pickler or the digest: every value routed through that path gets the same digest" % (cname, m.name))
+            if m.name == "save":
+                arg = m.args.args[1].arg
+                last = [c for c in feeds if call_name(c) in ("Pickler.save", "Hasher.save")]
+                ctx.check(bool(last) and all(dotted(c.args[1]) == arg for c in last), last[0] if last else m, "%s.save hands `%s` (possibly replaced by a proxy) to the parent" % (cname, arg),
+                          "%s.save does not hand the saved object to the parent" % cname)
+    ctx.floor(n, 7, "hook overrides in Hasher/NumpyHasher")
+    # proxies keep their payload
+    for pname, attr in (("_ConsistentSet", "_sequence"), ("_MyHash", "args")):
+        pc = mod.classes.get(pname)
+        ctx.need(pc is not None, "proxy class %s not found" % pname)
+        init = ctx.res.method(HS, pc, "__init__")
+        g = cfg_of(init)
+        st = assigns_to(init, "self." + attr)
+        ctx.check(bool(st) and g.every_path_from([g.entry], g.nodes_of_all(st), None), st[0] if st else init, "%s keeps its payload in self.%s on every path (it is what gets pickled)" % (pname, attr),
+                  "%s.__init__ can finish without storing self.%s: every proxied value pickles to the same bytes" % (pname, attr))
+    # numpy arrays (reached by Memory arguments): data bytes and a (class, dtype, shape, strides) descriptor
+    ns = ctx.repo.func(HS, "NumpyHasher.save")
+    g = cfg_of(ns)
+    arr = [i for i in nodes_of_type(ns, ast.If) if "self.np.ndarray" in unparse(i.test, 400)]
+    ctx.need(arr, "ndarray branch of NumpyHasher.save not found")
+    upd = [c for c in calls_in(ns) if call_name(c) == "self._hash.update" and any(i is arr[0] for i in ancestors(c)) and in_block_of(c, arr[0].body)]
+    desc = [a for a in nodes_of_type(ns, ast.Assign) if isinstance(a.value, ast.Tuple) and in_block_of(a, arr[0].body) and ns.args.args[1].arg in stores_to(a)]
+    ctx.check(bool(upd) and bool(desc) and g.every_path_to(g.nodes_of_all(desc), g.nodes_of_all(upd)), upd[0] if upd else arr[0], "ndarray: the data bytes are fed to the digest before the descriptor replaces the array",
+              "ndarray: the array's bytes no longer reach the digest (arrays of equal shape and dtype collide)")
+    if upd:
+        src = unparse(upd[0].args[0], 400)
+        ctx.check("obj_c_contiguous" in src, upd[0], "the bytes come from the contiguous view of the array")
+        defs = [a for a in nodes_of_type(ns, ast.Assign) if "obj_c_contiguous" in stores_to(a)]
+        ctx.check(bool(defs) and g.every_path_to(g.nodes_of_all(upd), g.nodes_of_all(defs)), defs[0] if defs else ns, "a contiguous view is chosen on every path (%d alternatives)" % len(defs))
+        for a in defs:
+            v = unparse(a.value)
+            facts = cond_facts([c_ for c_ in g.conditions_at(g.nodes_of(a)) if c_[0] is not arr[0]])
+            if v == "obj":
+                ctx.check(("obj.flags.c_contiguous", True) in facts, a, "the array itself is used only when C-contiguous", "a non C-contiguous array is hashed through its raw buffer (%s)" % facts)
+            elif v == "obj.T":
+                ctx.check(("obj.flags.f_contiguous", True) in facts, a, "the transpose is used only when F-contiguous", "the transpose of a non F-contiguous array is hashed (%s)" % facts)
+            else:
+                ctx.check(v == "obj.flatten()", a, "otherwise a flattened copy is hashed", "unexpected contiguous view %s" % v)
+    if desc:
+        t = unparse(desc[0].value, 400)
+        ctx.check(all(x in t for x in ("obj.dtype", "obj.shape", "obj.strides", "klass")), desc[0], "descriptor = (class, dtype, shape, strides)",
+                  "the array descriptor %s lost one of class/dtype/shape/strides: arrays differing only there collide" % t)
+        kl = [a for a in nodes_of_type(ns, ast.Assign) if "klass" in stores_to(a)]
+        for a in kl:
+            facts = cond_facts([c_ for c_ in g.conditions_at(g.nodes_of(a)) if c_[0] is not arr[0]])
+            if unparse(a.value) == "self.np.ndarray":
+                ctx.check(("self.coerce_mmap", True) in facts and any("self.np.memmap" in f[0] and f[1] for f in facts), a, "memmap is coerced to ndarray only on request (coerce_mmap) and only for memmaps",
+                          "the class recorded for an array is forced to ndarray under %s" % facts)
+            else:
+                ctx.check(unparse(a.value) == "obj.__class__", a, "otherwise the array's own class is recorded")
+        ctx.check(bool(kl) and g.every_path_to(g.nodes_of_all(desc), g.nodes_of_all(kl)), kl[0] if kl else ns, "the class is chosen on every path")
+
+
+def in_block_of(node, block):
+    return any(any(x is node for x in ast.walk(s)) for s in block)
 
 
 def pure(ctx):
@@ -307,6 +400,7 @@ def run(ctx):
     ctx.run("C08.MEMO", "R-ORDER", memo)
     ctx.run("C08.PROTO", "R-FLOW", proto)
     ctx.run("C08.NO-COLLAPSE", "R-TABLE", no_collapse)
+    ctx.run("C08.FEED-TOTAL", "R-FLOW", feed_total)
 
 
 def clauses(ctx):
